@@ -300,7 +300,7 @@ func (w *balWorld) ambiguous(kind string, idx int, ofKind []*gated) bool {
 }
 
 // takeCall: a pending call of the kind whose runner's iteration has been recorded; latest = it is the newest such call.
-func (w *balWorld) takeCall(kind string) (*gated, bool) {
+func (w *balWorld) takeCall(kind string) (*gated, bool, bool) {
 	w.h.mu.Lock()
 	defer w.h.mu.Unlock()
 	n := w.procTick
@@ -321,14 +321,15 @@ func (w *balWorld) takeCall(kind string) (*gated, bool) {
 		for i, p := range w.calls.pending {
 			if p == g {
 				w.calls.pending = append(w.calls.pending[:i:i], w.calls.pending[i+1:]...)
-				if w.ambiguous(kind, idx, ofKind) {
+				amb := w.ambiguous(kind, idx, ofKind)
+				if amb {
 					w.amb = true
 				}
-				return g, idx == last
+				return g, idx == last, amb
 			}
 		}
 	}
-	return nil, false
+	return nil, false, false
 }
 
 // env performs one decision if it can be performed now.
@@ -339,18 +340,25 @@ func (w *balWorld) env(o op, answers map[string]answer) bool {
 		if !ok {
 			return false
 		}
-		g, latest := w.takeCall("query")
+		g, latest, amb := w.takeCall("query")
 		if g == nil {
 			return false
 		}
-		ctx := g.ctxState(w.stopped)
-		if !w.stopped {
-			ctx = "na" // the loop may be leaving right now: only a reading taken after its end is recorded
+		for g != nil {
+			ctx := g.ctxState(w.stopped)
+			if !w.stopped {
+				ctx = "na" // the loop may be leaving right now: only a reading taken after its end is recorded
+			}
+			w.write(line{"k": "qret", "latest": latest, "a": a, "ctx": ctx})
+			g.release <- a.result()
+			if !amb {
+				break
+			}
+			// the driver cannot tell which of two back-to-back queries the loop still listens to: both get this answer
+			g, latest, amb = w.takeCall("query")
 		}
-		w.write(line{"k": "qret", "latest": latest, "a": a, "ctx": ctx})
-		g.release <- a.result()
 	case "pret":
-		g, latest := w.takeCall("pub")
+		g, latest, _ := w.takeCall("pub")
 		if g == nil {
 			return false
 		}
